@@ -114,6 +114,9 @@ func c13Answer(r *ring.Ring, q []string) string {
 		now, _ := strconv.ParseInt(q[5], 10, 64)
 		key, _ := strconv.ParseUint(q[6], 10, 32)
 		return c13Sub(r.ShuffleShardWithLookback(q[2], size, time.Duration(period)*time.Second, time.Unix(now, 0)), uint32(key))
+	case "O":
+		key, _ := strconv.ParseUint(q[3], 10, 32)
+		return c13Sub(r.GetSubringForOperationStates(c13OpOf(q[2])), uint32(key))
 	case "G":
 		key, _ := strconv.ParseUint(q[2], 10, 32)
 		rs, err := r.Get(uint32(key), c13AllOp, nil, nil, nil)
@@ -156,6 +159,26 @@ func c13Answer(r *ring.Ring, q []string) string {
 	}
 	panic("bad query " + strings.Join(q, "!"))
 }
+
+// c13OpOf: the operation whose healthy states are the given state letters (A L P J X); the three
+// predefined operations are used as they are, anything else is a custom NewOp mask.
+func c13OpOf(mask string) ring.Operation {
+	switch mask {
+	case "ALP":
+		return ring.Read
+	case "A":
+		return ring.Write
+	case "ALPJX":
+		return ring.Reporting
+	}
+	var sts []ring.InstanceState
+	for _, ch := range mask {
+		sts = append(sts, allStates[strings.IndexRune("ALPJX", ch)])
+	}
+	return ring.NewOp(sts, nil)
+}
+
+var c13OpMasks = []string{"ALP", "A", "ALPJX", "AJ", "L", "PJ", "AL"}
 
 func c13Shallow(d *ring.Desc) *ring.Desc {
 	return &ring.Desc{Ingesters: maps.Clone(d.Ingesters)} // token slices and version maps shared
@@ -212,6 +235,8 @@ func c13Hist(e *env, r *rng) {
 	maxTok := 1 + r.intn(3)
 	small := r.chance(1, 3)
 	idents := []string{"t0", "t1"}
+	// GetSubringForOperationStates: two operations per history, so that the same one is asked again
+	opMasks := []string{pick(r, c13OpMasks), pick(r, c13OpMasks)}
 	regTs := func() int64 {
 		switch r.intn(4) {
 		case 0:
@@ -408,7 +433,9 @@ func c13Hist(e *env, r *rng) {
 		if len(ids) > 0 && r.chance(5, 6) {
 			someID = pick(r, ids)
 		}
-		switch r.intn(20) {
+		switch r.intn(23) {
+		case 20, 21, 22:
+			q = []string{"Q", "O", pick(r, opMasks), key()}
 		case 0, 1, 2, 3, 4, 5, 6:
 			q = []string{"Q", "S", pick(r, idents), itoa(pick(r, sizes)), key()}
 		case 7, 8, 9, 10, 11:
@@ -452,6 +479,32 @@ func c13Hist(e *env, r *rng) {
 		steps = append(steps, strings.Join(q, "!"))
 		longA = append(longA, c13Answer(long, q))
 		freshA = append(freshA, c13Answer(fresh, q))
+		if q[1] == "O" && len(cur.Ingesters) > 0 && r.chance(2, 3) {
+			// the same operation asked again after an update that changes ONLY the state (and perhaps the
+			// heartbeat) of one instance: the sub-ring's membership depends on exactly that
+			prev := cur
+			nd := c13Shallow(cur)
+			x := pick(r, c12SortedIDs(nd))
+			i := nd.Ingesters[x]
+			i.State = allStates[(int(i.State)+1+r.intn(4))%5]
+			if r.chance(1, 2) {
+				i.Timestamp += int64(1 + r.intn(5))
+			}
+			nd.Ingesters[x] = i
+			cur = nd
+			cmp := c13CmpCode(prev.RingCompare(cur))
+			long.VerifUpdateRingState(c13Stored(c13Shallow(cur), idMode))
+			steps = append(steps, "U!state"+kindSfx+"!"+encDesc(cur))
+			longA = append(longA, cmp)
+			freshA = append(freshA, cmp)
+			fresh2, err := ring.VerifNewRing(mkCfg(true), c13Stored(cloneDesc(cur), idMode), nil)
+			if err != nil {
+				panic(err)
+			}
+			steps = append(steps, strings.Join(q, "!"))
+			longA = append(longA, c13Answer(long, q))
+			freshA = append(freshA, c13Answer(fresh2, q))
+		}
 	}
 	// streams for the three identifiers over all zones
 	var st []string
